@@ -86,11 +86,12 @@ static void cell(unsigned arg, unsigned f, pv_rng* rng, const char* hist, uint64
 }
 
 /* ---------------------------------------------------------------- matrix */
-static uint64_t n_matrix(void) { return NARGS * 32 * 2 * pv_scaled(6, 100); }
+static uint64_t n_matrix(void) { return NARGS * 32 * 2 * 2 * pv_scaled(4, 60); }
 static void run_matrix(uint64_t idx, pv_rng* rng) {
     unsigned f = (unsigned)(idx % 32); unsigned ai = (unsigned)((idx / 32) % NARGS); bool with_hist = (idx / 32 / NARGS) % 2;
+    bool reinject = (idx / 32 / NARGS / 2) % 2;          /* dependencies injected again between the enabling call and the use: must not touch the feature mask */
     unsigned arg = ARGS[ai];
-    char hist[96] = ""; uint64_t hh = 0;
+    char hist[128] = ""; uint64_t hh = 0;
     if (with_hist) {
         int n = 1 + (int)pv_randn(rng, 4); size_t k = (size_t)snprintf(hist, sizeof hist, " after enabling");
         for (int i = 0; i < n; ++i) { unsigned a = pv_randn(rng, 3) ? pv_randn(rng, 8) : (unsigned)pv_rand64(rng); int r = pv_api_enable_features(a); hh = pv_mix(hh, a); k += (size_t)snprintf(hist + k, sizeof hist - k, " 0x%x", a);
@@ -100,6 +101,7 @@ static void run_matrix(uint64_t idx, pv_rng* rng) {
     PV_COUNT("evaluations", 1);
     if (r != popcount3(arg)) pv_violation("C10/enable-return-value", "enable_features(0x%x) returned %d, expected %d", arg, r, popcount3(arg));
     else PV_COUNT("enable.return_ok", 1);
+    if (reinject) { pv_inject_default(); hh = pv_mix(hh, 0x1e1); strncat(hist, " then polyseed_inject", sizeof hist - strlen(hist) - 1); PV_COUNT("matrix.cells_with_reinjection", 1); }
     cell(arg, f, rng, hist, hh);
     if (idx < 64 && f == 5) pv_sample("matrix", "enable_features(0x%x)%s; feature value %u -> %s at every entry point", arg, hist, f, pv_m_supported(f, arg & 7) ? "accepted" : "UNSUPPORTED");
 }
@@ -113,6 +115,7 @@ static void run_hist(uint64_t idx, pv_rng* rng) {
     for (int i = 0; i < n; ++i) {
         if (pv_randn(rng, 3) == 0 || !known) { unsigned a = pv_randn(rng, 4) ? pv_randn(rng, 8) : (unsigned)pv_rand64(rng); int r = pv_api_enable_features(a); m = a & 7; known = true;
             if (r != popcount3(a)) pv_violation("C10/enable-return-value", "enable_features(0x%x) returned %d", a, r); }
+        else if (pv_randn(rng, 5) == 0) { pv_inject_default(); PV_COUNT("history.reinjections", 1); }
         else {
             unsigned f = pv_randn(rng, 8); polyseed_data* s = NULL; int st = pv_api_create(f, &s); PV_COUNT("evaluations", 1);
             bool sup = (f & ~m) == 0;
